@@ -79,6 +79,31 @@ class _Ctx:
         return _Ctx(_Env(), False)
 
 
+def _local_names(block: StmtBlock, out: set[NamedId]) -> set[NamedId]:
+    """Every name a statement of *block* (or of a block nested in it) binds."""
+    def bind(target: Id | TupleBinding):
+        match target:
+            case NamedId():
+                out.add(target)
+            case TupleBinding():
+                for elt in target.elts:
+                    bind(elt)
+
+    for stmt in block.stmts:
+        match stmt:
+            case Assign():
+                bind(stmt.target)
+            case IfStmt():
+                _local_names(stmt.ift, out)
+                _local_names(stmt.iff, out)
+            case If1Stmt() | WhileStmt():
+                _local_names(stmt.body, out)
+            case ForStmt() | ContextStmt():
+                bind(stmt.target)
+                _local_names(stmt.body, out)
+    return out
+
+
 class SyntaxCheckInstance(Visitor):
     """Single-use instance of syntax checking"""
     func: FuncDef
@@ -99,6 +124,7 @@ class SyntaxCheckInstance(Visitor):
         self.ignore_unknown = ignore_unknown
         self.allow_wildcard = allow_wildcard
         self.free_var_args = set()
+        self.local_names = _local_names(func.body, set())
 
     def analyze(self):
         self._visit_function(self.func, _Ctx.default())
@@ -200,7 +226,11 @@ class SyntaxCheckInstance(Visitor):
     def _visit_call(self, e: Call, ctx: _Ctx):
         match e.func:
             case Var():
-                self._mark_use(e.func.name, ctx.env, ignore_missing=self.ignore_unknown)
+                # A callee the function itself binds somewhere is a local, as
+                # in Python: it shadows whatever the name means outside, so it
+                # has to be bound here like any other variable that is read.
+                is_local = e.func.name in self.local_names
+                self._mark_use(e.func.name, ctx.env, ignore_missing=self.ignore_unknown and not is_local)
             case Attribute():
                 self._visit_attribute(e.func, _Ctx(ctx.env, True))
             case _:
